@@ -41,6 +41,13 @@ structure Cfg where
   /-- `ParseBlock` requires the counted entries to consume the whole decoded payload (so the
       16-bit `EntryCount`, which no checksum covers, cannot be changed unnoticed) -/
   parseConsumesAll : Bool
+  /-- every key-creating RPC of the gateway refuses empty / > 65535-byte keys (`isValidKey`) -/
+  apiValidatesKeys : Bool
+  /-- the gateway's `isValidSwampName` refuses names longer than 65535 bytes -/
+  apiBoundsNameLength : Bool
+  /-- the explorer TUI fetches a realm's swamps completely (pages through `ListSwamps`, whose limit is
+      clamped to 1000, or uses `ListAllSwamps`) instead of taking one clamped page -/
+  tuiListsAll : Bool
   /-- `openExistingFile` walks the block headers and truncates the file behind the last block that
       is entirely there (a torn tail would hide every block appended after it) -/
   openCutsTornTail : Bool
@@ -57,7 +64,7 @@ structure Cfg where
 def goodCfg : Cfg :=
   { rejectsEmptyKey := true, rejectsLongKey := true, flushGe := true, flushAtCount := true,
     deleteRemoves := true, validatesCrc := true, validatesULen := true, boundsCompressedSize := true,
-    boundsDecodedLen := true, parseConsumesAll := true, shortPayloadIsEOF := true, chronSurfacesError := true, openCutsTornTail := true, v2Fallback := true, rejectsLongName := true }
+    boundsDecodedLen := true, parseConsumesAll := true, shortPayloadIsEOF := true, chronSurfacesError := true, apiValidatesKeys := true, apiBoundsNameLength := true, tuiListsAll := true, openCutsTornTail := true, v2Fallback := true, rejectsLongName := true }
 
 /-- canonical error classes of the reader -/
 inductive Err where
